@@ -114,9 +114,53 @@ def call(db, q, order_by):
     return [f.id for f in it]
 
 
+def execute_after_delete(ctx, case):
+    """The distinct lists and counts must follow the features *present*: prime them on one handle, delete every
+    feature of one type and every feature on one seqid through the same handle, and compare again."""
+    import gffutils
+
+    SET = G.make_set(case["set"]["seed"], case["set"]["n"])
+    rows = SET["rows"]
+    db = gffutils.create_db(SET["text"], ":memory:", from_string=True)
+    try:
+        list(db.featuretypes()), list(db.seqids()), db.count_features_of_type()
+        types = sorted(set(r["featuretype"] for r in rows))
+        seqids = sorted(set(r["seqid"] for r in rows))
+        gone_t = types[case["pick"] % len(types)]
+        gone_s = seqids[(case["pick"] // 7) % len(seqids)]
+        victims = [r["id"] for r in rows if r["featuretype"] == gone_t or r["seqid"] == gone_s]
+        db.count_features_of_type(gone_t)
+        for i, v in enumerate(victims):
+            db.delete(v if i % 2 else db[v], make_backup=False)
+        left = [r for r in rows if r["id"] not in set(victims)]
+        ctx.mon("distinct lists compared after deletes")
+        checks = [("featuretypes", sorted(db.featuretypes()), sorted(set(r["featuretype"] for r in left))),
+                  ("seqids", sorted(db.seqids()), sorted(set(r["seqid"] for r in left))),
+                  ("count_features_of_type()", db.count_features_of_type(), len(left)),
+                  ("count_features_of_type(deleted type)", db.count_features_of_type(gone_t), 0),
+                  ("features_of_type(deleted type)", [f.id for f in db.features_of_type(gone_t)], []),
+                  ("all_features order", [f.id for f in db.all_features()], [r["id"] for r in left])]
+        for name, got, want in checks:
+            if got != want:
+                report(ctx, case, "after-delete", {"why": "%s does not follow the features present after deletes" % name,
+                                                   "got": got if not isinstance(got, list) else got[:20],
+                                                   "expected": want if not isinstance(want, list) else want[:20],
+                                                   "deleted type": gone_t, "deleted seqid": gone_s, "set": case["set"]})
+                break
+    except Exception as ex:
+        report(ctx, case, "raised", {"why": "counts after delete raised an exception", "raised": repr(ex)[:200]})
+    finally:
+        db.conn.close()
+        for v in contracts.drain():
+            report(ctx, case, "contract", v)
+    return {"expected": len(rows), "nkeys": 2}
+
+
 def execute(ctx, case):
     if case["kind"] == "counts":
         return execute_counts(ctx, case)
+    if case["kind"] == "counts_after_delete":
+        return execute_after_delete(ctx, case)
     q = case["query"]
     db, SET, by_id = get_db(ctx, case["set"])
     rows = SET["rows"]
@@ -249,6 +293,9 @@ def run(ctx):
         case = {"kind": "counts", "set": setp}
         execute(ctx, case)
         ctx.case(("counts", setp["seed"], setp["n"]), True, cls="counts / featuretypes / seqids", sample=None)
+        case = {"kind": "counts_after_delete", "set": setp, "pick": rng.randrange(1000)}
+        execute(ctx, case)
+        ctx.case(("counts_after_delete", setp["seed"], setp["n"], case["pick"]), True, cls="counts after deletes", sample=None)
         for _ in range(nq):
             q = G.gen_query(rng, SET)
             case = {"kind": "query", "set": setp, "query": q}
